@@ -1,7 +1,9 @@
 package main
 
 import (
+	"bytes"
 	"fmt"
+	"strconv"
 	"strings"
 	"time"
 
@@ -558,7 +560,31 @@ func init() {
 		if kind == "1" { // receiver built without the constructor
 			sa.Regions, sa.Styles = nil, nil
 		}
+		// a cue whose style / region identifier is defined in its list's maps points to that very definition
+		for _, sx := range []*astisub.Subtitles{sa, sb} {
+			for _, it := range sx.Items {
+				if it.Style != nil && sx.Styles != nil && sx.Styles[it.Style.ID] != nil {
+					it.Style = sx.Styles[it.Style.ID]
+				}
+				if it.Region != nil && sx.Regions != nil && sx.Regions[it.Region.ID] != nil {
+					it.Region = sx.Regions[it.Region.ID]
+				}
+			}
+		}
+		type refs struct {
+			st *astisub.Style
+			rg *astisub.Region
+		}
+		var argRefs []refs
+		for _, it := range sb.Items {
+			argRefs = append(argRefs, refs{it.Style, it.Region})
+		}
 		sa.Merge(sb)
+		for k, it := range sb.Items {
+			if k < len(argRefs) && (it.Style != argRefs[k].st || it.Region != argRefs[k].rg) {
+				return "ARG-CUE-REPOINTED: a cue of the argument refers to another definition after the merge"
+			}
+		}
 		oa, ob := observeGraph(&astisub.Subtitles{Regions: sa.Regions, Styles: sa.Styles}), observeGraph(&astisub.Subtitles{Regions: sb.Regions, Styles: sb.Styles})
 		out := encMItems(observe(sa.Items, ids)) + " " + encMItems(observe(sb.Items, ids)) + " " + oa.enc() + " " + ob.enc()
 		// a second merge into the same receiver must still leave the first argument alone (no shared maps)
@@ -597,6 +623,14 @@ func init() {
 			for j := range gb.styles {
 				gb.styles[j].key = gb.styles[j].id
 			}
+			if len(xb) > 0 && r.chance(1, 3) {
+				// a cue of B uses a style (a region) defined in B's maps, and A defines another one under the same identifier
+				p := strconv.Itoa(xb[r.intn(len(xb))].pay)
+				gb.styles = append(gb.styles, gDef{key: "s" + p, id: "s" + p, tag: 1})
+				ga.styles = append(ga.styles, gDef{key: "s" + p, id: "s" + p, tag: 2})
+				gb.regions = append(gb.regions, gDef{key: "r" + p, id: "r" + p, tag: 1})
+				ga.regions = append(ga.regions, gDef{key: "r" + p, id: "r" + p, tag: 2})
+			}
 			kind := 0
 			if r.chance(1, 4) {
 				kind = 1
@@ -612,7 +646,21 @@ func init() {
 		s := g.build()
 		before := cueShot(s)
 		s.Optimize()
-		return observeGraph(s).enc() + fmt.Sprintf(" same=%v", before == cueShot(s))
+		same := before == cueShot(s)
+		// what is left can still be written and read back (every reference finds its definition)
+		if len(s.Items) > 0 {
+			for _, f := range []string{"ttml", "vtt"} {
+				var b bytes.Buffer
+				if err := writeRaw(f, s, &b); err == nil {
+					if _, err := readWith(f, bytes.NewReader(b.Bytes())); err != nil && strings.Contains(err.Error(), "PANIC") {
+						same = false
+					} else if err != nil && !danglingBefore(g) {
+						same = false
+					}
+				}
+			}
+		}
+		return observeGraph(s).enc() + fmt.Sprintf(" same=%v", same)
 	}, gen: func(c *ctx) {
 		r := newRng(c.seed, "ops.optimize")
 		nr := 40000
@@ -642,6 +690,48 @@ func cueShot(s *astisub.Subtitles) string {
 		b.WriteString("}")
 	}
 	return b.String()
+}
+
+// danglingBefore: does the graph refer to a definition that does not exist (such a list cannot be read back whatever
+// Optimize does)? Also true for graphs whose keys differ from the identifiers or that define one identifier twice.
+func danglingBefore(g graph) bool {
+	st, rg := map[string]bool{}, map[string]bool{}
+	for _, d := range g.styles {
+		if d.key != d.id || st[d.id] {
+			return true
+		}
+		st[d.id] = true
+	}
+	for _, d := range g.regions {
+		if d.key != d.id || rg[d.id] {
+			return true
+		}
+		rg[d.id] = true
+	}
+	chainOK := func(c []string) bool {
+		for _, id := range c {
+			if !st[id] {
+				return false
+			}
+		}
+		return true
+	}
+	for _, d := range append(append([]gDef{}, g.styles...), g.regions...) {
+		if !chainOK(d.chain) {
+			return true
+		}
+	}
+	for _, it := range g.items {
+		if !chainOK(it.style) || (it.region != "" && !rg[it.region]) {
+			return true
+		}
+		for _, r := range it.runs {
+			if !chainOK(r) {
+				return true
+			}
+		}
+	}
+	return false
 }
 
 func sortByStart(xs []mItem) {
